@@ -12,8 +12,12 @@ import (
 	"io/ioutil"
 	"os"
 	"path/filepath"
+	"runtime"
 	"sort"
 	"strconv"
+	"strings"
+	"sync/atomic"
+	"time"
 
 	"github.com/xuperchain/xupercore/lib/crypto/client"
 	cbase "github.com/xuperchain/xupercore/lib/crypto/client/base"
@@ -139,6 +143,48 @@ type Out struct {
 	// stack overflow, deadlock) ./check reports this file as the replay
 	cur       *os.File
 	seenReset bool
+	// watchdog: the last time the harness made progress (Begin / Emit / Case / Count); OnHang supplies the op lines
+	// of the case being executed for harnesses that do not use Begin
+	progress int64
+	closed   int32
+	onHang   func() []string
+}
+
+// OnHang registers the function that names the case being executed when the watchdog fires.
+func (o *Out) OnHang(f func() []string) { o.onHang = f }
+
+func (o *Out) tick() { atomic.StoreInt64(&o.progress, time.Now().UnixNano()) }
+
+// Tick tells the watchdog that the harness is alive (for phases that legitimately emit nothing for a long time).
+func (o *Out) Tick() { o.tick() }
+
+// watchdog: code under test that blocks forever (a lock that is never released, a wait nobody answers) must end the
+// run with a replay, not hang it. After XV_HANG_SECS (default 300) without progress the stacks of all goroutines and
+// the current case go to hang.txt / current_case.ops and the process exits with status 7.
+func (o *Out) watchdog() {
+	limit := time.Duration(EnvInt("XV_HANG_SECS", 300)) * time.Second
+	for {
+		time.Sleep(time.Second)
+		if atomic.LoadInt32(&o.closed) != 0 {
+			return
+		}
+		idle := time.Since(time.Unix(0, atomic.LoadInt64(&o.progress)))
+		if idle < limit {
+			continue
+		}
+		buf := make([]byte, 4<<20)
+		n := runtime.Stack(buf, true)
+		var ops []string
+		if o.onHang != nil {
+			ops = o.onHang()
+		}
+		if len(ops) > 0 {
+			ioutil.WriteFile(filepath.Join(o.Dir, "current_case.ops"), []byte(strings.Join(ops, "\n")+"\n"), 0644)
+		}
+		ioutil.WriteFile(filepath.Join(o.Dir, "hang.txt"), []byte(fmt.Sprintf("no progress for %v\n\n%s", idle.Round(time.Second), buf[:n])), 0644)
+		fmt.Fprintf(os.Stderr, "xvlib watchdog: no progress for %v, see hang.txt\n", idle.Round(time.Second))
+		os.Exit(7)
+	}
 }
 
 func NewOut(dir string) *Out {
@@ -152,12 +198,17 @@ func NewOut(dir string) *Out {
 		panic(err)
 	}
 	cur, _ := os.Create(filepath.Join(dir, "current_case.ops"))
-	return &Out{Dir: dir, fo: fo, fi: fi, ops: bufio.NewWriterSize(fo, 1<<20), impl: bufio.NewWriterSize(fi, 1<<20),
+	os.Remove(filepath.Join(dir, "hang.txt"))
+	o := &Out{Dir: dir, fo: fo, fi: fi, ops: bufio.NewWriterSize(fo, 1<<20), impl: bufio.NewWriterSize(fi, 1<<20),
 		seen: map[[32]byte]bool{}, Stats: Stats{Distribution: map[string]int{}}, cur: cur}
+	o.tick()
+	go o.watchdog()
+	return o
 }
 
 // Begin notes that op is about to be executed (call before running it on the real code).
 func (o *Out) Begin(op string) {
+	o.tick()
 	if o.cur == nil {
 		return
 	}
@@ -174,6 +225,7 @@ func (o *Out) Begin(op string) {
 
 // Emit records one op line and what the implementation answered.
 func (o *Out) Emit(op, impl string) {
+	o.tick()
 	o.ops.WriteString(op)
 	o.ops.WriteByte('\n')
 	o.impl.WriteString(impl)
@@ -183,6 +235,7 @@ func (o *Out) Emit(op, impl string) {
 
 // Case counts one evaluated case; nontrivial cases are de-duplicated by hash.
 func (o *Out) Case(canon string, nontrivial bool) {
+	o.tick()
 	o.Stats.Evaluations++
 	if nontrivial {
 		h := sha256.Sum256([]byte(canon))
@@ -216,6 +269,7 @@ func (o *Out) Violate(v Violation) {
 }
 
 func (o *Out) Close() {
+	atomic.StoreInt32(&o.closed, 1)
 	if o.cur != nil {
 		o.cur.Close()
 		os.Remove(filepath.Join(o.Dir, "current_case.ops"))
